@@ -6,7 +6,8 @@ import random
 import common as C
 import c12
 
-COQ_FILES = ("L4_Eval/Store.v", "L5_Stores/RunStore.v", "L5_Stores/PathMap.v", "L5_Stores/PathMapProofs.v", "Properties/C08.v")
+COQ_FILES = ("L4_Eval/Store.v", "L5_Stores/RunStore.v", "L5_Stores/PathMap.v", "L5_Stores/PathMapProofs.v", "L6_Conc/LocalProgs.v", "L6_Conc/SeqRefine.v", "Properties/C08.v", "Properties/C08b.v")
+PROPERTY_FILES = ("C08", "C08b")
 EXTRACTED = ("ConstStore",)
 ALLOWED_AXIOMS = ()
 
